@@ -15,4 +15,18 @@ META = {
         ),
         "technique": "runtime oracle vs reference model over exhaustive small-scope inputs + numba bounds-check sanitizer",
     },
+    "C18": {
+        "level_text": (
+            "find_hits (all fields), cut_outside_hits, record_links, baseline, zero_out_of_bounds and integrate "
+            "run on every integer waveform over {0,1,2,5} up to 7 samples (2 channels, 1-2 fragments, record "
+            "lengths 4-5) and on seeded random pulses of up to 3 fragments x 3 channels with removed fragments; "
+            "results are compared with forward references in pulse coordinates; repeated under numba bounds "
+            "checking, where an out-of-range index (otherwise a silent overrun or SIGSEGV) raises IndexError."
+        ),
+        "level_note": (
+            "trusted: references in vf/checks/c18.py; thresholds >= 1, samples >= 0; cut_baseline excluded "
+            "(outside the statement; does not compile under numba 0.67)"
+        ),
+        "technique": "runtime oracle vs forward reference over exhaustive small waveforms + numba bounds-check sanitizer",
+    },
 }
